@@ -1,6 +1,7 @@
 package main
 
 import (
+	"errors"
 	"fmt"
 	"sync"
 	"time"
@@ -134,6 +135,58 @@ func runC06(c *Ctx) error {
 				}
 				c.count(tag, true, "kind=local", fmt.Sprintf("reason>123=%v", rl > 123))
 			}
+		}
+	}
+	// ---- (b2) closes caused by a transport read error: body = status 1000 followed by the error text, cut to 125 bytes
+	for _, server := range []bool{true, false} {
+		for tl := 0; tl <= 300; tl++ {
+			if c.quick() && tl > 4 && (tl < 118 || tl > 130) && tl%17 != 0 {
+				continue
+			}
+			text := make([]byte, tl)
+			for i := range text {
+				text[i] = byte('A' + i%26)
+			}
+			spec := connSpec{Server: server, Utf8: true, PMD: tl%2 == 0}
+			h := &recHandler{}
+			conn, tap, err := spec.open(h)
+			if err != nil {
+				return err
+			}
+			tap.feed(dataFrame(1, true, server, []byte("hello")))
+			tap.mu.Lock()
+			tap.failRead, tap.failReadErr = tap.nRead+tl%2, errors.New(string(text))
+			tap.mu.Unlock()
+			tag := fmt.Sprintf("error close server=%v textlen=%d", server, tl)
+			replay := map[string]any{"server": server, "error_text_len": tl}
+			if !runWithTimeout(10*time.Second, conn.ReadLoop) {
+				c.oracleFail("read loop did not return after a transport read error ["+tag+"]", "error-close-hang", replay)
+				continue
+			}
+			fs, rest, perr := parseFrames(tap.written())
+			replay["wire"] = fmt.Sprintf("%x", head(tap.written(), 140))
+			want := head(append([]byte{0x03, 0xe8}, text...), 125)
+			closes := 0
+			for _, e := range h.events() {
+				if e.Kind == "close" {
+					closes++
+				}
+			}
+			closed, _ := tap.isClosed()
+			switch {
+			case perr != nil || len(rest) != 0 || len(fs) != 1 || fs[0].Opcode != 8:
+				c.oracleFail(fmt.Sprintf("a transport read error did not put exactly one Close frame on the wire (frames=%d, undecodable=%v, trailing=%d) [%s]", len(fs), perr, len(rest), tag), "error-close-frame", replay)
+			case wfOutbound(fs[0], server) != "":
+				c.oracleFail("Close frame after a transport read error: "+wfOutbound(fs[0], server)+" ["+tag+"]", "error-close-frame", replay)
+			case string(fs[0].Payload) != string(want):
+				c.oracleFail(fmt.Sprintf("Close body after a transport read error is %x..., want status 1000 and the error text cut to 125 bytes in all [%s]", head(fs[0].Payload, 8), tag), "error-close-body", replay)
+			case closes != 1 || !closed:
+				c.oracleFail(fmt.Sprintf("after a transport read error OnClose ran %d times, transport closed=%v [%s]", closes, closed, tag), "error-close-lifecycle", replay)
+			}
+			if len(fs) == 1 {
+				c.addCase("C06err", VL{VN(1), VN(1000), VB(text), VB(fs[0].Payload)}, tag)
+			}
+			c.count(tag, true, "kind=error-close", fmt.Sprintf("text>123=%v", tl > 123))
 		}
 	}
 	return runC06Schedules(c)
